@@ -223,6 +223,12 @@ class SyncInterpreter(BaseInterpreter[TContext, TEvent]):
             self._process_transient_transitions()
         finally:
             self._is_processing = False
+        # 🧹 `stop()` may have arrived from another thread (a parent stopping
+        #    this actor) while the entry actions were still running; release
+        #    whatever they spawned or armed after that sweep.
+        if self.status == "stopped":
+            self._release_resources()
+            return self
         # 📬 Drain anything raised while the initial configuration settled.
         self._process_event_queue()
 
@@ -269,25 +275,7 @@ class SyncInterpreter(BaseInterpreter[TContext, TEvent]):
         #    now hits the idempotency guard instead of recursing forever.
         self.status = "stopped"
         self._unregister_from_system()
-        for actor_id, actor in list(self._actors.items()):
-            try:
-                actor.stop()
-            finally:
-                self._actors.pop(actor_id, None)
-
-        # 2️⃣ Cancel all `after` timers by signaling their cancellation events
-        for state_id in list(self._after_events.keys()):
-            self._after_events[state_id].set()
-        self._after_events.clear()
-        self._after_threads.clear()
-
-        # 2️⃣.5 Release any waiting delayed-send threads. They are daemons, so
-        #      they never block process exit, but a long delay would otherwise
-        #      keep one alive for its full duration after shutdown.
-        for cancel_flag in list(self._pending_send_cancels):
-            cancel_flag.set()
-        self._pending_send_cancels.clear()
-        self._scheduled_sends.clear()
+        self._release_resources()
 
         # 3️⃣ Update status to prevent further operations
         self.status = "stopped"
@@ -340,6 +328,36 @@ class SyncInterpreter(BaseInterpreter[TContext, TEvent]):
             self._event_queue.append(event_obj)
 
         self._process_event_queue()
+
+    def _release_resources(self) -> None:
+        """Stops child actors and releases timer and delayed-send threads.
+
+        Called by `stop()`, and again by a macrostep that finds the interpreter
+        stopped when it finishes: `stop()` may arrive from another thread while
+        a timer, actor or caller thread is still running actions here, and
+        whatever those actions spawn or arm after the sweep would otherwise
+        never be released.
+        """
+        # 1️⃣ Stop every child actor (blocking & non-blocking).
+        for actor_id, actor in list(self._actors.items()):
+            try:
+                actor.stop()
+            finally:
+                self._actors.pop(actor_id, None)
+
+        # 2️⃣ Cancel all `after` timers by signaling their cancellation events
+        for state_id in list(self._after_events.keys()):
+            self._after_events[state_id].set()
+        self._after_events.clear()
+        self._after_threads.clear()
+
+        # 2️⃣.5 Release any waiting delayed-send threads. They are daemons, so
+        #      they never block process exit, but a long delay would otherwise
+        #      keep one alive for its full duration after shutdown.
+        for cancel_flag in list(self._pending_send_cancels):
+            cancel_flag.set()
+        self._pending_send_cancels.clear()
+        self._scheduled_sends.clear()
 
     def _note_self_raised(self, count: int) -> None:
         """Counts events this machine sends to itself while it is processing.
@@ -426,6 +444,10 @@ class SyncInterpreter(BaseInterpreter[TContext, TEvent]):
         finally:
             self._is_processing = False
             logger.debug("🎉 Event processing cycle completed. Queue empty.")
+            # 🧹 Stopped from another thread mid-macrostep: release what the
+            #    remaining actions created after `stop()` had swept.
+            if self.status == "stopped":
+                self._release_resources()
         # 🔁 Another thread may have queued an event after the last emptiness
         #    check but before the flag was released; it saw the flag set and
         #    returned, so without this re-check its event would sit in the
@@ -1272,10 +1294,20 @@ class SyncInterpreter(BaseInterpreter[TContext, TEvent]):
         def _runner() -> None:
             """Starts the child and cleans up when it's done or stopped."""
             try:
+                # 🚫 The parent may already have dropped this child (it was
+                #    stopped, or the id was reused) before this thread ran.
+                #    `stop()` on a not-yet-started child is a no-op, so
+                #    starting it now would leave it running unsupervised.
+                if self._actors.get(actor_id) is not child:
+                    return
                 # 🚀 Start the actor in the background thread.
                 child.start()
-                # 🔄 Keep the thread alive while the child runs.
-                while child.status == "running":
+                # 🔄 Keep the thread alive while the child runs and is still
+                #    registered with its parent.
+                while (
+                    child.status == "running"
+                    and self._actors.get(actor_id) is child
+                ):
                     # 🏁 Exit loop if the child reaches a top-level final state.
                     if any(
                         s.is_final and s.parent == child.machine
